@@ -257,6 +257,7 @@ def stores_to(n: ast.AST) -> list[tuple[ast.expr, ast.stmt, str]]:
         elif isinstance(x, (ast.For, ast.AsyncFor)):
             for e in _flatten(x.target):
                 out.append((e, x, 'for'))
+    out.sort(key=lambda r: (getattr(r[1], 'lineno', 0), getattr(r[1], 'col_offset', 0)))
     return out
 
 
